@@ -312,6 +312,10 @@ func checkIO(name string, l *ioLog, w *World, si *storeIndex, q *bs.Query, fileF
 				found = true
 				if !bs.EvaluateDataBlockMetadata(&b.Meta, q.Prefilter) {
 					*out = append(*out, fnd("c24-read-prefiltered-block", "C24 %s: row data of %s@%d was read although the prefilter rules the block out", name, r.ptr, bo))
+				} else if q.Prefilter != nil && prefilterWellFormed(q.Prefilter.Expression) && !refBlockSatisfies(&b.Meta, q.Prefilter.Expression) {
+					// decided by exact range reasoning on the recorded metadata, independently of the
+					// engine's evaluator: no value of the recorded range can satisfy the prefilter
+					*out = append(*out, fnd("c24-read-block-ruled-out-by-range", "C24 %s: row data of %s@%d (partition %q, ranges %v) was read although no value its metadata admits can satisfy the prefilter", name, r.ptr, bo, b.Meta.PartitionID, b.Meta.MinMaxIndexes))
 				} else if !filterEval(blockFilters[fmt.Sprintf("%s@%d", b.File, b.Meta.RowDataOffset)], be) {
 					*out = append(*out, fnd("c24-read-filtered-block", "C24 %s: row data of %s@%d was read although its block filters rule out the bloom expression", name, r.ptr, bo))
 				}
@@ -596,4 +600,68 @@ func regexFieldGuard(e *bs.RegexExpression) *bs.BloomExpression {
 		return &bs.BloomExpression{ExpressionType: bs.BloomExpressionOr, Children: kids}
 	}
 	return nil
+}
+
+func refBlockSatisfies(md *bs.DataBlockMetadata, e *bs.PrefilterExpression) bool {
+	bm := refmodel.BlockMeta{Partition: md.PartitionID, MinMax: map[string][2]int64{}}
+	for k, v := range md.MinMaxIndexes {
+		bm.MinMax[k] = [2]int64{v.Min, v.Max}
+	}
+	missing := false
+	return refmodel.BlockSatisfies(bm, e, &missing)
+}
+
+// prefilterWellFormed: only documented node and condition kinds, every condition complete
+// (what the engine does with anything else is not defined).
+func prefilterWellFormed(e *bs.PrefilterExpression) bool {
+	if e == nil {
+		return true
+	}
+	switch e.ExpressionType {
+	case bs.PrefilterExpressionCondition:
+		c := e.Condition
+		if c == nil {
+			return false
+		}
+		switch c.ConditionType {
+		case bs.PrefilterConditionPartition:
+			return c.PartitionCondition != nil && knownOp(string(c.PartitionCondition.Operator))
+		case bs.PrefilterConditionMinMax:
+			if c.MinMaxCondition == nil {
+				return false
+			}
+			// the negative operators are evaluated conservatively on ranges by the engine (a block
+			// whose range is exactly the excluded value is kept): "ruled out" is asserted only for
+			// the operators whose range test is exact
+			switch c.MinMaxCondition.Operator {
+			case bs.OpNotEqual, bs.OpNotIn, bs.OpNotBetween:
+				return false
+			case bs.OpBetween:
+				if c.MinMaxCondition.Min > c.MinMaxCondition.Max {
+					return false // an inverted interval is degenerate: what the engine keeps for it is not asserted
+				}
+			}
+			return knownOp(string(c.MinMaxCondition.Operator))
+		}
+		return false
+	case bs.PrefilterExpressionAnd, bs.PrefilterExpressionOr:
+		if len(e.Children) == 0 {
+			return false
+		}
+		for i := range e.Children {
+			if !prefilterWellFormed(&e.Children[i]) {
+				return false
+			}
+		}
+		return true
+	}
+	return false
+}
+
+func knownOp(op string) bool {
+	switch op {
+	case "EQ", "NE", "GT", "GTE", "LT", "LTE", "IN", "NOT_IN", "BETWEEN", "NOT_BETWEEN":
+		return true
+	}
+	return false
 }
